@@ -49,6 +49,12 @@ type Universe struct {
 	TimeoutLostPermille    uint64
 	TimeoutAppliedPermille uint64
 	FaultMinShard          uint64
+	// ReadBusyPermille: keyed probability that a linearizable read is refused with ErrSystemBusy
+	// (the read-index queue of an overloaded node is full).
+	ReadBusyPermille uint64
+	// Gate, if set, is called outside the simulator lock at the entry of every SyncPropose, SyncRead and
+	// StaleRead; the harness may park the calling goroutine there (token hand-over point).
+	Gate func(kind, raftAddress string, shardID uint64, payload any)
 	// CutPermille: probability (keyed per replica and index) that an apply batch is cut after an entry.
 	CutPermille uint64
 	// OnEvent, if set, receives a description of every simulator decision (for run digests).
@@ -60,6 +66,7 @@ type Universe struct {
 	fatals  []string
 	counter map[string]uint64
 	stats   map[string]int64
+	nreads  uint64
 }
 
 type hostStore struct {
